@@ -65,6 +65,7 @@ type dbRun struct {
 	root string
 	db   database.DB
 	rows int // rows expected in t1 (all written at ids >= the first cut)
+	rows4 int // rows expected in t4 (constraints of every kind), -1 when the table could not be created
 	docs int
 	kv   map[string][]byte // KV entries written at ids >= the latest cut
 	step string
@@ -229,6 +230,7 @@ func (d *dbRun) checkServing(when string) {
 	} else if n != d.rows {
 		d.viol("db/sql-select-row-count/"+when, fmt.Sprintf("indexed SELECT returned %d rows, expected %d", n, d.rows))
 	}
+	d.checkConstrained(when)
 	nd, err := d.countDocs()
 	if err != nil {
 		d.viol("db/document-search-fails/"+when, err.Error())
@@ -269,6 +271,47 @@ func (d *dbRun) checkServing(when string) {
 		}
 	}
 	d.c.Distinct(fmt.Sprintf("db/io=%d/filesize=%d/%s", d.sp.IOConc, d.sp.FileSize, when))
+}
+
+// checkConstrained: the table that carries every kind of catalog object (composite key, NOT NULL, named and
+// unnamed CHECK, unique index, added and renamed columns) keeps serving AND keeps enforcing after truncation.
+func (d *dbRun) checkConstrained(when string) {
+	if d.rows4 < 0 {
+		return
+	}
+	k := d.rows4
+	if err := d.exec(fmt.Sprintf("INSERT INTO t4(a, b, c, dd, e) VALUES(%d, 'b%d', %d, true, 0.5)", k, k, k)); err != nil {
+		d.viol("db/sql-insert-fails/constrained-table/"+when, err.Error())
+	} else {
+		d.rows4++
+	}
+	if n, err := d.query("SELECT a, b, c, dd, e FROM t4"); err != nil {
+		d.viol("db/sql-select-fails/constrained-table/"+when, err.Error())
+	} else if n != d.rows4 {
+		d.viol("db/sql-select-row-count/constrained-table/"+when, fmt.Sprintf("SELECT returned %d rows, %d were inserted at or after the cut", n, d.rows4))
+	}
+	if n, err := d.query("SELECT a FROM t4 USE INDEX ON (c) WHERE c >= 0"); err != nil {
+		d.viol("db/sql-select-by-index-fails/constrained-table/"+when, err.Error())
+	} else if n != d.rows4 {
+		d.viol("db/sql-select-row-count/constrained-table/"+when, fmt.Sprintf("SELECT through the unique index returned %d rows, expected %d", n, d.rows4))
+	}
+	for _, v := range []struct{ kind, stmt string }{
+		{"named-check", fmt.Sprintf("INSERT INTO t4(a, b, c, dd) VALUES(%d, 'x', -5, true)", 500000+k)},
+		{"unnamed-check", fmt.Sprintf("INSERT INTO t4(a, b, c, dd) VALUES(%d, 'x', %d, true)", 2000000+k, 600000+k)},
+		{"unique-index", fmt.Sprintf("INSERT INTO t4(a, b, c, dd) VALUES(%d, 'x', %d, true)", 700000+k, k)},
+		{"not-null", fmt.Sprintf("INSERT INTO t4(a, b, c) VALUES(%d, 'x', %d)", 800000+k, 800000+k)},
+		{"primary-key", fmt.Sprintf("INSERT INTO t4(a, b, c, dd) VALUES(%d, 'b%d', %d, true)", k, k, 900000+k)},
+	} {
+		if d.rows4 == 0 {
+			break
+		}
+		err := d.exec(v.stmt)
+		d.c.Distinct("db/constraint/" + v.kind + "/" + when + "/refused=" + fmt.Sprint(err != nil))
+		if err == nil {
+			d.rows4++
+			d.viol("db/constraint-no-longer-enforced/"+v.kind+"/"+when, "accepted: "+v.stmt)
+		}
+	}
 }
 
 func (d *dbRun) truncate(cut uint64, label string) {
@@ -354,6 +397,19 @@ func runDBHistory(c *fw.Ctx, sp spec) {
 	if err := d.exec("ALTER TABLE t1 ADD COLUMN note VARCHAR[20]"); err != nil {
 		c.Note("alter table: " + err.Error())
 	}
+	for _, s := range []string{
+		"CREATE TABLE t4 (a INTEGER NOT NULL, b VARCHAR[8], c INTEGER, d BOOLEAN NOT NULL, x INTEGER, CONSTRAINT ck_c CHECK (c >= 0), CHECK (a < 1000000), PRIMARY KEY (a, b))",
+		"CREATE UNIQUE INDEX ON t4 (c)",
+		"ALTER TABLE t4 ADD COLUMN e FLOAT",
+		"ALTER TABLE t4 RENAME COLUMN d TO dd",
+		"ALTER TABLE t4 DROP COLUMN x",
+	} {
+		if err := d.exec(s); err != nil {
+			c.Note("constrained table: " + s + ": " + err.Error())
+			d.rows4 = -1
+			break
+		}
+	}
 	// push every value log several chunks beyond the catalog
 	cut := d.fill("a", 6*sp.IOConc+sp.NTx%5)
 	if cut == 0 {
@@ -406,6 +462,21 @@ func runDBHistory(c *fw.Ctx, sp spec) {
 			}
 			if err := d.insertDoc(1e6); err != nil {
 				d.viol("db/document-insert-fails/after-second-truncation-and-restart", err.Error())
+			}
+			if d.rows4 >= 0 {
+				// its earlier rows may be gone with the second cut: what is asked is that the table still accepts and still refuses
+				if err := d.exec("INSERT INTO t4(a, b, c, dd) VALUES(999001, 'z', 999001, false)"); err != nil {
+					d.viol("db/sql-insert-fails/constrained-table/after-second-truncation-and-restart", err.Error())
+				}
+				for kind, stmt := range map[string]string{
+					"named-check":  "INSERT INTO t4(a, b, c, dd) VALUES(999002, 'z', -1, false)",
+					"unique-index": "INSERT INTO t4(a, b, c, dd) VALUES(999003, 'z', 999001, false)",
+					"not-null":     "INSERT INTO t4(a, b, c) VALUES(999004, 'z', 999004)",
+				} {
+					if err := d.exec(stmt); err == nil {
+						d.viol("db/constraint-no-longer-enforced/"+kind+"/after-second-truncation-and-restart", "accepted: "+stmt)
+					}
+				}
 			}
 			d.c.Distinct(fmt.Sprintf("db/io=%d/filesize=%d/after-second-truncation-and-restart", d.sp.IOConc, d.sp.FileSize))
 		}
